@@ -168,9 +168,15 @@ def _qname(tag):
     return ns, local
 
 
-def proppatch_body(ops, root="{DAV:}propertyupdate"):
-    """ops: list of (abstract prop, value or None for remove)."""
-    from xml.sax.saxutils import escape
+def proppatch_body(ops, root="{DAV:}propertyupdate", cdata=False):
+    """ops: list of (abstract prop, value or None for remove).  cdata: values travel in CDATA
+    sections (the same text, spelled differently)."""
+    from xml.sax.saxutils import escape as _escape
+
+    def escape(v):
+        if cdata and "]]>" not in v:
+            return "<![CDATA[" + v + "]]>"
+        return _escape(v)
     rns, rlocal = _qname(root)
     parts = ['<?xml version="1.0" encoding="utf-8"?><R:%s xmlns:R="%s" xmlns:D="DAV:">' % (rlocal, rns)]
     for p, v in ops:
